@@ -1251,9 +1251,11 @@ impl DhtCoreEngine {
 
     /// Handle node failure
     pub async fn handle_node_failure(&mut self, failed_node: NodeId) -> Result<()> {
-        // Remove from routing table
-        let mut routing = self.routing_table.write().await;
-        routing.remove_node(&failed_node);
+        // Remove from routing table and give back the diversity slots it held
+        let addresses = self.remove_from_routing(&failed_node).await;
+        for address in &addresses {
+            self.release_slots(address, true).await;
+        }
 
         // Schedule repairs for affected data
         let _replication = self.replication_manager.write().await;
@@ -1267,10 +1269,10 @@ impl DhtCoreEngine {
     /// This is called when a node fails security validation or is detected
     /// as malicious through Sybil/collusion detection.
     pub async fn evict_node(&self, node_id: &NodeId, reason: EvictionReason) -> Result<()> {
-        // 1. Remove from routing table
-        {
-            let mut routing = self.routing_table.write().await;
-            routing.remove_node(node_id);
+        // 1. Remove from routing table and give back the diversity slots it held
+        let addresses = self.remove_from_routing(node_id).await;
+        for address in &addresses {
+            self.release_slots(address, true).await;
         }
 
         // 2. Update security metrics based on eviction reason
@@ -1451,6 +1453,20 @@ impl DhtCoreEngine {
 }
 
 impl DhtCoreEngine {
+    /// Remove a node from the routing table; returns the address of every entry removed.
+    async fn remove_from_routing(&self, node_id: &NodeId) -> Vec<String> {
+        let mut routing = self.routing_table.write().await;
+        let bucket_index = routing.get_bucket_index(node_id);
+        let addresses = routing.buckets[bucket_index]
+            .get_nodes()
+            .iter()
+            .filter(|n| &n.id == node_id)
+            .map(|n| n.address.clone())
+            .collect();
+        routing.remove_node(node_id);
+        addresses
+    }
+
     /// Give back the IP diversity slots - and, with `region_too`, the region slot -
     /// that `add_node` takes for a node with this address.
     async fn release_slots(&self, address: &str, region_too: bool) {
